@@ -6,10 +6,10 @@ CONSTANTS
   HCap = 64
   Parts = 1
   WsMode = FALSE
-  MaxPub = 5
-  MaxRead = 3
+  MaxPub = 6
+  MaxRead = 4
   MaxStall = 2
-  MaxSweep = 2
+  MaxSweep = 3
 INVARIANTS Quiescent QueueBound WholeUnits
 VIEW GView
 ACTION_CONSTRAINT Emit
